@@ -156,7 +156,8 @@ let judge_f op a got =
   let got = over got in
   let wb nb =
     let nb = zi nb in
-    if x () = Inf then judge_call (k FoTotal Inf one Zar.zero) got else
+    (* infinities are mapped to infinities, whatever the two bases (documented; same-base case repaired by c105b18) *)
+    if x () = Inf then judge_call (KWithBase (b, nb, Zar.one, Inf)) got else
     let spec_t = if Zar.sign prec = 0 then Zar.zero else Zar.one in
     let asis_t = if Zar.sign prec = 0 || auto_prec_zero b nb prec then Zar.zero else Zar.one in
     judge_call ~alt:(Some (TWithBasePrecisionZero, KWithBase (b, nb, asis_t, x ()))) (KWithBase (b, nb, spec_t, x ())) got
